@@ -186,7 +186,7 @@ structure Params where
   weakAlpha : Bool := false
   /-- consensus feature version ≥ 26.1 -/
   fv261 : Bool := true
-deriving Repr, Inhabited
+deriving Repr, Inhabited, DecidableEq
 
 /-- The randomness of an election: every place where the Go code consults the DRBG or the VRF betas. -/
 structure Shuffles where
